@@ -6,7 +6,7 @@ V = os.path.abspath(os.path.join(os.path.dirname(__file__), '..'))
 
 CHECKS = {
  'C07': dict(
-    technique='property-based testing (Hypothesis) against a 60-digit mpmath Gaussian-conditioning reference; metamorphic block-order relation',
+    technique='property-based testing (Hypothesis) against a 60-digit mpmath Gaussian-conditioning reference; metamorphic block-order and power-of-two rescaling relations',
     text='Generated search over (n<=20, m<=6) x spectrum/rank/conditioning classes with an independent high-precision '
          'posterior as oracle and a derived rounding-model tolerance; detects any O(eps*cond)-exceeding deviation of mean, '
          'covariance or whitened innovation, asymmetry, loss of PSD, input mutation and order dependence on the sampled cases. '
